@@ -409,6 +409,22 @@ fn write_data_to_stream<F: Read + Write + Seek>(
     })
 }
 
+/// When a stream grows within its chain, the part of its old final sector
+/// beyond the old length may hold stale data; overwrite it with zeros.
+fn zero_old_tail<C: Write + Seek>(
+    chain: &mut C,
+    old_len: u64,
+    new_len: u64,
+    sector_len: u64,
+) -> io::Result<()> {
+    if new_len > old_len && old_len % sector_len != 0 {
+        let end = new_len.min(old_len.div_ceil(sector_len) * sector_len);
+        chain.seek(SeekFrom::Start(old_len))?;
+        chain.write_all(&vec![0u8; (end - old_len) as usize])?;
+    }
+    Ok(())
+}
+
 /// If `new_stream_len` is less than the stream's current length, then the
 /// stream will be truncated.  If it is greater than the stream's current size,
 /// then the stream will be padded with zero bytes.
@@ -453,6 +469,12 @@ fn resize_stream<F: Read + Write + Seek>(
             let mut chain = minialloc.open_mini_chain(old_start_sector)?;
             chain.set_len(new_stream_len)?;
             debug_assert_eq!(chain.start_sector_id(), old_start_sector);
+            zero_old_tail(
+                &mut chain,
+                old_stream_len,
+                new_stream_len,
+                consts::MINI_SECTOR_LEN as u64,
+            )?;
             old_start_sector
         } else {
             // Case 2c: The new length is too large to fit in a mini chain.
@@ -490,10 +512,17 @@ fn resize_stream<F: Read + Write + Seek>(
             // Case 3c: The new length is still too large to fit in a mini
             // chain.  Therefore, we just need to adjust the length of the
             // existing chain.
+            let sector_len = minialloc.version().sector_len() as u64;
             let mut chain =
                 minialloc.open_chain(old_start_sector, SectorInit::Zero)?;
             chain.set_len(new_stream_len)?;
             debug_assert_eq!(chain.start_sector_id(), old_start_sector);
+            zero_old_tail(
+                &mut chain,
+                old_stream_len,
+                new_stream_len,
+                sector_len,
+            )?;
             old_start_sector
         }
     };
